@@ -223,7 +223,7 @@ def _part_a(sh, tier, res):
             res.sample({"part": "a", "s": s})
         n += 1
     res.count("a_strings", n)
-    res.count("max_a_len_started", L)
+    res.count("a_done_len%d" % L, n)
 
 
 # ------------------------------------------------------------------ (b) tag semantics
@@ -407,12 +407,31 @@ def _part_b(sh, res):
             res.sample({"part": "b", "events": list(events), "markup": "".join(EVENTS[e][1] for e in events)})
         n += 1
     res.count("b_sequences", n)
-    res.count("max_b_len_started", sh["L"])
+    res.count("b_done_%s_len%d" % (sh["alpha"], sh["L"]), n)
 
 
 # ------------------------------------------------------------------ protocol
 def plan(tier, seed):
-    return _a_shards(5 if tier == "quick" else 7) + _b_shards(tier)
+    # strata in ascending length, (b) before (a) inside a stratum: a wall cap cuts off the longest strings only
+    shards = _a_shards(5 if tier == "quick" else 7) + _b_shards(tier)
+    shards.sort(key=lambda sh: (sh["L"], sh["part"] != "b", sh.get("alpha", ""), sh["prefix"]))
+    return shards
+
+
+def _completed(res, tier):
+    """highest length bound whose stratum (and all shorter ones) was enumerated completely"""
+    a_done = -1
+    for L in range((5 if tier == "quick" else 7) + 1):
+        if res.counters.get("a_done_len%d" % L, 0) != len(_sigma(L)) ** L:
+            break
+        a_done = L
+    b_done = -1
+    for L in range((5 if tier == "quick" else 6) + 1):
+        if res.counters.get("b_done_full_len%d" % L, 0) != len(ALPHA_FULL) ** L:
+            break
+        b_done = L
+    b7 = {al: res.counters.get("b_done_%s_len7" % al, 0) == len(ALPHABETS[al]) ** 7 for al in ("7a", "7b")}
+    return a_done, b_done, b7
 
 
 def run_shard(sh, tier, seed):
@@ -445,7 +464,10 @@ def describe(tier, seed, res):
             "emoji substitution is a separate feature: emoji=True is only judged where fewer than two ':' make it a no-op",
             "exact (tri-state) style equality per character: 'not bold' must read back as bold=False, not as unset",
         ],
-        "coverage": {"strings": res.counters.get("a_strings", 0), "tag_sequences": res.counters.get("b_sequences", 0)},
+        "coverage": {"strings": res.counters.get("a_strings", 0), "tag_sequences": res.counters.get("b_sequences", 0),
+                     "completed_bounds": {"escape_string_length": _completed(res, tier)[0],
+                                          "tag_events_full_alphabet": _completed(res, tier)[1],
+                                          "tag_events_len7_subalphabets": (_completed(res, tier)[2] if not q else "n/a")}},
     }
 
 
